@@ -397,7 +397,8 @@ PROPS = {
                      R('derive_execution', ['derive-twin'], '13 struct shapes (adjacent members of one type, A-B-A, runs, nested sets, attributes / doc comments / cfg, parenthesised types, type macros, `$t:ty` fragments of a declarative macro; both derives) compiled with the REAL derive macros of the working tree and executed twice each: every member is a probe that draws from the shared generator and places an order carrying its id and the draw; the order list must be the hand-written sequence - every member once, in declaration order, same environment and generator')],
             'design': '§5 C20'},
     'C19': {'legs': [V('py'), V('env'), V('book'),
-                     {'engine': 'python', 'name': 'cpython_arrays_and_dictionary', 'n': 40, 'bound': '40 seeded random simulations (3-8 steps, ticks 1/2/5; the book mid-range, at the bottom of the price range with bids down to price 0, or at its top) on StepEnv and StepEnvNumpy through the compiled extension module: both observation arrays, get_prices / get_volumes and EVERY key and series of the market-data dictionary against quantities recomputed from get_orders() / get_trades() after each step'}],
+                     {'engine': 'python', 'name': 'cpython_arrays_and_dictionary', 'n': 40, 'bound': '40 seeded random simulations (3-8 steps, ticks 1/2/5; the book mid-range, at the bottom of the price range with bids down to price 0, or at its top) on StepEnv and StepEnvNumpy through the compiled extension module: both observation arrays, get_prices / get_volumes and EVERY key and series of the market-data dictionary against quantities recomputed from get_orders() / get_trades() after each step'},
+                     {'engine': 'python', 'name': 'dataframe_columns_static', 'mode': 'C19frames', 'n': 1, 'needs_repo': True, 'bound': 'static conformance only (pandas is not installed, the helpers cannot be executed): the literal `columns` list of trades_to_dataframe / orders_to_dataframe in src/bourse/data_processing.py against the field order of cast_trade / cast_order in rust/src/types.rs (whose tuple layout is proved in the unit py), with the documented short names'}],
             'design': '§5 C19'},
 }
 
@@ -670,6 +671,8 @@ def run_python_bounded(pid, leg, seed):
         raise Undecided('the PyO3 extension module does not build from this tree (bounded stand-in %s)' % leg['name'])
     t = time.time()
     cmd = ['/opt/veriftools/pyvenv/bin/python', os.path.join(HERE, 'py_bounded.py'), so, leg.get('mode', pid), str(seed), str(leg.get('n_thorough', leg['n']) if TIER == 'thorough' else leg['n'])]
+    if leg.get('needs_repo'):
+        cmd.append(REPO)
     if leg.get('needs_replay'):
         rb = build_replay()
         if not rb:
